@@ -115,7 +115,7 @@ def finish(prop, pd, tier, seed, results, wall, write_baseline=False):
                         if ob["name"] == v.get("name") and ob["status"] == "refuted":
                             ob["status"] = "known-finding"
                     continue
-                violations.append({"name": v.get("name", r.get("name")), "unit": r.get("name"), "confirmed": True, "ob": v,
+                violations.append({"name": v.get("name", r.get("name")), "unit": r.get("name"), "confirmed": v.get("confirmed", True), "ob": v,
                                    "function": None, "config": None})
             if r.get("adequacy_failures"):
                 errors.append("%s: spec adequacy failure (spec disagrees with CPython): %s" % (r.get("name"), r["adequacy_failures"][:2]))
